@@ -94,6 +94,18 @@ def gitDecide (w : World) (s : Sit) : GitOutcome :=
       else .rejectNonFF
     | _, _ => .storeNew
 
+/-- What `git fetch` does to the destination on EVERY situation (round 2): an unborn remote ref is
+never mapped (ls-refs' `unborn` line only serves clone), a mapping without destination only feeds
+FETCH_HEAD, and a destination that is a dangling symbolic ref reads as the null id, so
+`update_local_ref` treats it like a missing ref (and writes through the symref). -/
+def gitEffectX (w : World) (s : Sit) : Effect :=
+  if s.remoteUnborn then .keep
+  else if !s.hasDst then .keep
+  else (gitDecide w { s with localExists := s.localExists && !s.localUnborn }).effect
+
+def Effect.str : Effect → String
+  | .update => "update" | .keep => "keep" | .abort => "abort"
+
 /-- the flag column of `git fetch -v` -/
 def GitOutcome.flag : GitOutcome → String
   | .die => "die" | .upToDate => "=" | .rejectCheckedOut => "!" | .tagUpdate => "t" | .rejectTag => "!"
